@@ -314,7 +314,23 @@ def judge(case, m):
             ratio = space.min_sv_ratio(Z)
             lost = space.residual_outside(Z, R)
             extra = space.residual_outside(R, Z)
-            if ratio < 1e-9:
+            degenerate = False
+            if ratio < 1e-9 or lost > 1e-6:
+                # the premise: numeric effects in general position WITHIN every cell (a spline column may vanish on the few
+                # points of one cell: then the model space itself loses a dimension and nothing can be said about the coding)
+                for nm, (cat, num) in terms.items():
+                    for a in num:
+                        Mx = np.asarray(numeric_matrix(df, a), dtype=float)
+                        Mx = Mx.reshape(n, -1)
+                        if Mx.shape[1] < 2:
+                            continue
+                        for c in range(ncell):
+                            rows_c = cidx == c
+                            if rows_c.sum() and space.min_sv_ratio(np.column_stack([np.ones(int(rows_c.sum())), Mx[rows_c]])) < 1e-9:
+                                degenerate = True
+            if degenerate:
+                m.note("numeric-effect-not-in-general-position-within-a-cell")
+            elif ratio < 1e-9:
                 m.violation("coding-rank-span",
                             f"{text}: blocks of {':'.join(ft)} have {Z.shape[1]} columns but rank {space.rank(Z)} (space {space.rank(R)})",
                             case={**case, "factor": list(ft)}, key="coding:rank-deficient")
